@@ -191,7 +191,7 @@ which consumes a second time. -/
 theorem addPhase2_eqv {extra : List Key} {s t : State} (h : IInv extra s) (he : Eqv s t) (k : Key) (m : Mapping)
     (hp : ∀ x, x ∈ s.pass → x ∉ m.frm ∧ x ∉ m.to) :
     Eqv (addPhase2 s k m).1 (addPhase2 t k m).1 ∧ (addPhase2 s k m).2 = (addPhase2 t k m).2 := by
-  cases ha : isActionMapping m
+  cases ha : producesActionKey m
   · rw [addPhase2_nonaction s k m ha, addPhase2_nonaction t k m ha]; exact ⟨he, rfl⟩
   · have r := ram_eqv he
     have hi := (releaseActionMappings_spec h).1
